@@ -6,7 +6,9 @@
  * `effects`: for every function in the audited set, whether some statement can modify an argument in place
    (subscript/attribute store or augmented assignment through a name that still aliases a parameter, call of a
    known in-place kernel on such a name, mutating method call) and whether an alias of an argument is returned.
-   `x = x.copy()` / any fresh expression at the top level of the function breaks the alias.
+   The alias map is a forward data-flow state: `x = x.copy()` / any fresh expression rebinds the name ON THE PATH it is
+   executed on; at the end of an `if`/`try`/loop the states of the paths are joined (union), so a copy made in one branch
+   only does not protect a mutation after the branch; loops are iterated to a fixpoint.
 The analysis over-approximates (it never misses a syntactic mutation of the listed kinds; it may flag harmless code).
 """
 import ast, os, re, json
@@ -15,7 +17,9 @@ import translate as T
 NAME = 'Effects'
 
 MODULES = ['Numerics.py', 'Spectrum_mod.py', 'LowPass/LowPass.py', 'Integration.py', 'PhiManip.py', 'Inference.py',
-           'Misc.py', 'Godambe.py']
+           'Misc.py', 'Godambe.py', 'Demes/Demes.py', 'Demes/DemesUtil.py', 'Demes/__init__.py']
+# functions that return a wrapper forwarding its positional / keyword arguments to the function they are given
+WRAPPERS = {'make_extrap_func', 'make_extrap_log_func', 'make_anc_state_misid_func'}
 ALIASING_METHODS = {'ravel', 'reshape', 'transpose', 'view', 'swapaxes', 'squeeze', 'filled', 'diagonal', 'astype_nocopy', '__array__'}   # may return views
 # functions of numpy that return their (first) argument itself, or a view of it, for at least some argument types
 _ALIASING_NUMPY = {'asarray', 'asanyarray', 'ascontiguousarray', 'asfortranarray', 'asfarray', 'asarray_chkfinite', 'atleast_1d', 'atleast_2d',
@@ -59,15 +63,31 @@ def _kw(call, name):
         if k.arg == name: return k.value
     return None
 
-def alias_roots(e, A):
-    """set of parameters (roots) that the value of expression `e` may alias; A : name -> set of roots"""
+def bind_args(call, cpos, off=0):
+    """(parameter name of the callee, argument expression) pairs of a call, given the callee's positional parameter names"""
+    out = []
+    for i, a in enumerate(call.args):
+        if isinstance(a, ast.Starred): break
+        j = i + off
+        if j < len(cpos): out.append((cpos[j], a))
+    for k in call.keywords:
+        if k.arg is not None: out.append((k.arg, k.value))
+    return out
+
+def callee_offset(fnm, cpos):
+    return 1 if (fnm.startswith('self.') and cpos and cpos[0] == 'self') else 0
+
+def alias_roots(e, A, summ=None, F=None):
+    """set of parameters (roots) that the value of expression `e` may alias; A : name -> set of roots.
+    summ : {call-site name: (positional parameters, modified parameters, parameters the return value may alias)};
+    F    : {local name: call-site names of the library functions it may stand for}"""
     if isinstance(e, ast.Name):
         return set(A.get(e.id, ()))
     if isinstance(e, (ast.Subscript, ast.Attribute)):
         b = base_name(e)
         return set(A.get(b, ())) if b else set()
     if isinstance(e, ast.Starred):
-        return alias_roots(e.value, A)
+        return alias_roots(e.value, A, summ, F)
     if isinstance(e, ast.Call):
         fn = T.callee_name(e.func)
         if isinstance(e.func, ast.Attribute) and e.func.attr in ALIASING_METHODS and base_name(e.func.value) in A:
@@ -75,39 +95,50 @@ def alias_roots(e, A):
         nn = numpy_name(fn)
         first = e.args[0] if e.args else None
         if nn in _ALIASING_NUMPY and first is not None:
-            return alias_roots(first, A)
+            return alias_roots(first, A, summ, F)
         if nn in _COPY_BY_DEFAULT and first is not None:
             c = _kw(e, 'copy')
             if c is not None and not (isinstance(c, ast.Constant) and c.value is True):
-                return alias_roots(first, A)
+                return alias_roots(first, A, summ, F)
             return set()
         if nn in _ALIAS_BY_DEFAULT and first is not None:
             c = _kw(e, 'copy')
             if c is not None and isinstance(c, ast.Constant) and c.value is True:
                 return set()
-            return alias_roots(first, A)
+            return alias_roots(first, A, summ, F)
         if fn in ('Spectrum', 'Spectrum_mod.Spectrum', 'dadi.Spectrum') and first is not None:
             c = _kw(e, 'data_copy')
             if c is not None and not (isinstance(c, ast.Constant) and c.value is True):
-                return alias_roots(first, A)
+                return alias_roots(first, A, summ, F)
             return set()
         if fn and INPLACE_KERNEL.match(fn) and first is not None:
-            return alias_roots(first, A)          # the kernels return their first argument
-        return set()
+            return alias_roots(first, A, summ, F)          # the kernels return their first argument
+        # a function of the audited modules whose summary says its return value may alias some of its parameters
+        out = set()
+        if fn and summ is not None:
+            for cal in ([fn] if fn in summ else sorted((F or {}).get(fn, ()))):
+                if cal not in summ or cal in NON_PROPAGATING: continue
+                cpos, _, cret = summ[cal]
+                if not cret: continue
+                off = callee_offset(cal, cpos)
+                if off and 'self' in cret: out |= set(A.get('self', ()))
+                for pn, a in bind_args(e, cpos, off):
+                    if pn in cret: out |= alias_roots(a, A, summ, F)
+        return out
     if isinstance(e, ast.IfExp):
-        return alias_roots(e.body, A) | alias_roots(e.orelse, A)
+        return alias_roots(e.body, A, summ, F) | alias_roots(e.orelse, A, summ, F)
     if isinstance(e, ast.BoolOp):
         out = set()
-        for v in e.values: out |= alias_roots(v, A)
+        for v in e.values: out |= alias_roots(v, A, summ, F)
         return out
     if isinstance(e, ast.Tuple):
         # (a tuple cannot itself be modified; it is tracked so that `return phi, xx` counts as returning an alias.  A list / dict
         #  literal is a fresh container: appending to it modifies no argument)
         out = set()
-        for x in e.elts: out |= alias_roots(x, A)
+        for x in e.elts: out |= alias_roots(x, A, summ, F)
         return out
     if isinstance(e, ast.NamedExpr):
-        return alias_roots(e.value, A)
+        return alias_roots(e.value, A, summ, F)
     return set()
 
 def is_alias_expr(e, A):
@@ -121,17 +152,31 @@ def param_names(fn):
     if a.kwarg: allp.append(a.kwarg.arg)
     return ps, allp
 
-def analyse(fn, summaries=None, outer=None, qual=None, nested_out=None):
+def join_states(states):
+    """join of alias maps at a control-flow merge: a name aliases a root if it does on SOME incoming path (None = no path)"""
+    live = [x for x in states if x is not None]
+    if not live: return None
+    out = {}
+    for st in live:
+        for k, v in st.items():
+            if v: out[k] = set(out.get(k, ())) | set(v)
+    return out
+
+def analyse(fn, summaries=None, outer=None, qual=None, nested_out=None, want_ret=False):
     """effect summary of one function.
-    summaries : {callee name as written at the call site: (positional parameter names, set of parameters it may modify)}
-                (interprocedural step: passing an alias of an argument to a parameter the callee modifies is a modification);
+    summaries : {callee name as written at the call site: (positional parameter names, set of parameters it may modify, set of
+                parameters its return value may alias)} (interprocedural step: passing an alias of an argument to a parameter the
+                callee modifies is a modification; the value of a call aliases what the callee's summary says it returns);
     outer     : alias map of the enclosing function (closure variables of a nested function alias what they alias outside);
     nested_out: list receiving (qualified name, params, events, returned aliases) of nested functions.
+    The alias map is propagated forward along the control flow: an assignment rebinds the name on the path it lies on; the
+    states of the branches of an `if` / `try` are joined after it; loop bodies are iterated until the state at the loop head is
+    stable (with the states at `continue`), the states at `break` join the loop exit; `return` / `raise` end a path.
     Returns (params, mutation events, returned aliases, set of roots — own parameters or, for a nested function, parameters
-    of an enclosing function reached through a closure variable — that may be modified)."""
+    of an enclosing function reached through a closure variable — that may be modified[, roots the return value may alias])."""
     pos, params = param_names(fn)
-    A = {k: set(v) for k, v in (outer or {}).items()}
-    for p_ in params: A[p_] = {p_}
+    A0 = {k: set(v) for k, v in (outer or {}).items() if v}
+    for p_ in params: A0[p_] = {p_}
     # `**kwargs` is a dictionary created by the call: deleting / storing its entries modifies nothing of the caller's
     fresh_dict = fn.args.kwarg.arg if fn.args.kwarg else None
     # parameters whose default is a number / bool / string are scalars: `t += dt` on a plain name bound to one rebinds the name
@@ -142,12 +187,31 @@ def analyse(fn, summaries=None, outer=None, qual=None, nested_out=None):
             scalars.add(nm)
         if isinstance(d, ast.UnaryOp) and isinstance(d.operand, ast.Constant) and isinstance(d.operand.value, (int, float)):
             scalars.add(nm)
-    muts = []; ret_alias = []; mutated = set()
+    muts = []; ret_alias = []; mutated = set(); ret_roots = set()
     summ = dict(summaries or {})
-    def R(e): return alias_roots(e, A)
+    F = {}                 # local names bound to library functions (function tables `[f, g][i]`, wrappers `make_extrap_func(f)`)
+    loops = []             # enclosing loops: states at `break` / `continue`
+    def R(e, A): return alias_roots(e, A, summ, F)
     def event(lineno, text, roots):
-        muts.append('%d: %s' % (lineno, text)); mutated.update(roots)
-    def scan_calls(s):
+        t = '%d: %s' % (lineno, text)
+        if t not in muts: muts.append(t)
+        mutated.update(roots)
+    def fun_refs(e):
+        """call-site names of the library functions the value of `e` may be, or may forward its arguments to"""
+        if isinstance(e, (ast.Name, ast.Attribute)):
+            nm = T.callee_name(e)
+            if nm in F: return set(F[nm])
+            return {nm} if nm in summ else set()
+        if isinstance(e, ast.Subscript) and isinstance(e.value, (ast.List, ast.Tuple)):
+            out = set()
+            for x in e.value.elts: out |= fun_refs(x)
+            return out
+        if isinstance(e, ast.IfExp): return fun_refs(e.body) | fun_refs(e.orelse)
+        if isinstance(e, ast.Call):
+            nm = T.callee_name(e.func) or ''
+            if nm.split('.')[-1] in WRAPPERS and e.args: return fun_refs(e.args[0])
+        return set()
+    def scan_calls(s, A):
         stack = [s]
         while stack:
             node = stack.pop()
@@ -156,32 +220,28 @@ def analyse(fn, summaries=None, outer=None, qual=None, nested_out=None):
                 stack.append(ch)
             if not isinstance(node, ast.Call): continue
             fnm = T.callee_name(node.func)
-            if fnm and INPLACE_KERNEL.match(fnm) and node.args and R(node.args[0]):
-                event(node.lineno, '%s(%s, ...)' % (fnm, ast.unparse(node.args[0])), R(node.args[0]))
+            if fnm and INPLACE_KERNEL.match(fnm) and node.args and R(node.args[0], A):
+                event(node.lineno, '%s(%s, ...)' % (fnm, ast.unparse(node.args[0])), R(node.args[0], A))
             if isinstance(node.func, ast.Attribute) and node.func.attr in MUTATING_METHODS and A.get(base_name(node.func.value)) \
                and not (isinstance(node.func.value, ast.Name) and node.func.value.id == fresh_dict):
                 event(node.lineno, ast.unparse(node.func), A[base_name(node.func.value)])
             nn = numpy_name(fnm)
-            if nn in _WRITING_NUMPY and len(node.args) > _WRITING_NUMPY[nn] and R(node.args[_WRITING_NUMPY[nn]]):
-                event(node.lineno, '%s(%s, ...)' % (fnm, ast.unparse(node.args[_WRITING_NUMPY[nn]])), R(node.args[_WRITING_NUMPY[nn]]))
+            if nn in _WRITING_NUMPY and len(node.args) > _WRITING_NUMPY[nn] and R(node.args[_WRITING_NUMPY[nn]], A):
+                event(node.lineno, '%s(%s, ...)' % (fnm, ast.unparse(node.args[_WRITING_NUMPY[nn]])), R(node.args[_WRITING_NUMPY[nn]], A))
             o = _kw(node, 'out')
-            if o is not None and R(o):
-                event(node.lineno, '%s(..., out=%s)' % (fnm, ast.unparse(o)), R(o))
-            if fnm in summ and fnm not in NON_PROPAGATING:
-                cpos, cmut = summ[fnm]
-                off = 0
-                if fnm.startswith('self.') and cpos and cpos[0] == 'self':
-                    off = 1
-                    if 'self' in cmut and A.get('self'):
-                        event(node.lineno, '%s() modifies self' % fnm, A['self'])
-                for i, a in enumerate(node.args):
-                    if isinstance(a, ast.Starred): break
-                    j = i + off
-                    if j < len(cpos) and cpos[j] in cmut and R(a):
-                        event(node.lineno, '%s(… %s …) modifies its parameter %s' % (fnm, ast.unparse(a)[:30], cpos[j]), R(a))
-                for k in node.keywords:
-                    if k.arg in cmut and R(k.value):
-                        event(node.lineno, '%s(… %s=%s …) modifies its parameter %s' % (fnm, k.arg, ast.unparse(k.value)[:30], k.arg), R(k.value))
+            if o is not None and R(o, A):
+                event(node.lineno, '%s(..., out=%s)' % (fnm, ast.unparse(o)), R(o, A))
+            if fnm is None: continue
+            for cal in ([fnm] if fnm in summ else sorted(F.get(fnm, ()))):
+                if cal not in summ or cal in NON_PROPAGATING: continue
+                cpos, cmut = summ[cal][0], summ[cal][1]
+                via = '' if cal == fnm else ' (= %s)' % cal
+                off = callee_offset(cal, cpos)
+                if off and 'self' in cmut and A.get('self'):
+                    event(node.lineno, '%s() modifies self' % fnm, A['self'])
+                for pn, a in bind_args(node, cpos, off):
+                    if pn in cmut and R(a, A):
+                        event(node.lineno, '%s%s(… %s …) modifies its parameter %s' % (fnm, via, ast.unparse(a)[:30], pn), R(a, A))
     def is_fresh_entry(t):
         # kwargs[k] (one level): an entry of the call's own keyword dictionary
         return isinstance(t, ast.Subscript) and isinstance(t.value, ast.Name) and t.value.id == fresh_dict
@@ -192,22 +252,46 @@ def analyse(fn, summaries=None, outer=None, qual=None, nested_out=None):
         if isinstance(s, (ast.With, ast.AsyncWith)): return [i.context_expr for i in s.items]
         if isinstance(s, ast.Try): return []
         return [s]
-    def visit(stmts, top):
+    def assign(tt, val, A, whole):
+        """bind target `tt` to the value of `val` (`whole`: tt receives all of val; otherwise an element of it)"""
+        if isinstance(tt, (ast.Tuple, ast.List)):
+            if isinstance(val, (ast.Tuple, ast.List)) and len(val.elts) == len(tt.elts) and not any(isinstance(x, ast.Starred) for x in list(val.elts) + list(tt.elts)):
+                for x, v in zip(tt.elts, val.elts): assign(x, v, A, True)
+            else:
+                for x in tt.elts: assign(x, val, A, False)
+            return
+        if isinstance(tt, ast.Starred):
+            return assign(tt.value, val, A, False)
+        if isinstance(tt, (ast.Subscript, ast.Attribute)):
+            b = base_name(tt)
+            if A.get(b) and not is_fresh_entry(tt):
+                event(tt.lineno, '%s =' % ast.unparse(tt), A[b])
+        elif isinstance(tt, ast.Name):
+            r = R(val, A) if val is not None else set()
+            if whole:
+                fr = fun_refs(val) if val is not None else set()
+                if fr: F[tt.id] = set(F.get(tt.id, ())) | fr
+            if r: A[tt.id] = set(r)
+            else: A.pop(tt.id, None)
+    def visit(stmts, A):
+        """state after the statements (None: no path falls through)"""
         for s in stmts:
+            if A is None: return None
             if isinstance(s, (ast.FunctionDef, ast.AsyncFunctionDef)):
                 q = '%s.%s' % (qual or fn.name, s.name)
-                npar, nm, nr, nmut = analyse(s, summ, outer=A, qual=q, nested_out=nested_out)
-                if nested_out is not None: nested_out.append((q, npar, nm, nr))
+                npar, nm, nr, nmut, nret = analyse(s, summ, outer=A, qual=q, nested_out=nested_out, want_ret=True)
+                if nested_out is not None and not any(x[0] == q for x in nested_out): nested_out.append((q, npar, nm, nr))
                 own = set(param_names(s)[1])
                 for r in sorted(nmut - own):
                     # a nested function that writes through a closure variable modifies the enclosing function's argument
                     event(s.lineno, 'nested %s writes through the closure variable aliasing %s' % (s.name, r), {r})
-                summ[s.name] = (param_names(s)[0], nmut & own)
+                summ[s.name] = (param_names(s)[0], nmut & own, nret & own)
+                A.pop(s.name, None)
                 continue
             if isinstance(s, ast.ClassDef):
                 continue
             # mutation events first (evaluated with the alias set before this statement's own rebinding)
-            for e in own_exprs(s): scan_calls(e)
+            for e in own_exprs(s): scan_calls(e, A)
             if isinstance(s, ast.AugAssign):
                 b = base_name(s.target)
                 roots = set(A.get(b) or ())
@@ -216,65 +300,121 @@ def analyse(fn, summaries=None, outer=None, qual=None, nested_out=None):
                     event(s.lineno, '%s %s=' % (ast.unparse(s.target), type(s.op).__name__), roots)
             elif isinstance(s, (ast.Assign, ast.AnnAssign)):
                 targets = s.targets if isinstance(s, ast.Assign) else [s.target]
-                val = s.value
+                # all targets are bound to the value as seen BEFORE the statement
+                before = dict(A)
                 for t in targets:
-                    is_tup = isinstance(t, (ast.Tuple, ast.List))
-                    for tt in (t.elts if is_tup else [t]):
-                        if isinstance(tt, (ast.Subscript, ast.Attribute)):
-                            b = base_name(tt)
-                            if A.get(b) and not is_fresh_entry(tt):
-                                event(s.lineno, '%s =' % ast.unparse(tt), A[b])
-                        elif isinstance(tt, ast.Name):
-                            r = R(val) if (val is not None and not is_tup) else set()
-                            if r:
-                                A[tt.id] = set(r) if top else (set(A.get(tt.id, set())) | r)
-                            elif top and not is_tup:
-                                A.pop(tt.id, None)
+                    if isinstance(t, ast.Name):
+                        r = R(s.value, before) if s.value is not None else set()
+                        fr = fun_refs(s.value) if s.value is not None else set()
+                        if fr: F[t.id] = set(F.get(t.id, ())) | fr
+                        if r: A[t.id] = set(r)
+                        else: A.pop(t.id, None)
+                    else:
+                        tmp = dict(before); assign(t, s.value, tmp, True)
+                        for k in set(tmp) | set(before):
+                            if tmp.get(k) != before.get(k):
+                                if tmp.get(k): A[k] = tmp[k]
+                                else: A.pop(k, None)
             elif isinstance(s, ast.Delete):
                 for tt in s.targets:
                     if isinstance(tt, ast.Subscript) and A.get(base_name(tt)) and not is_fresh_entry(tt):
                         event(s.lineno, 'del %s' % ast.unparse(tt), A[base_name(tt)])
+                    elif isinstance(tt, ast.Name):
+                        A.pop(tt.id, None)
             elif isinstance(s, ast.Return):
-                if s.value is not None and R(s.value):
-                    ret_alias.append('%d: return %s' % (s.lineno, ast.unparse(s.value)[:40]))
-            elif isinstance(s, (ast.For, ast.AsyncFor)):
-                # loop variable bound to elements: not an alias of the container for our purposes (scalars); bodies nested
-                visit(s.body, False); visit(s.orelse, False)
-            elif isinstance(s, (ast.If, ast.While)):
-                visit(s.body, False); visit(s.orelse, False)
+                if s.value is not None and R(s.value, A):
+                    t = '%d: return %s' % (s.lineno, ast.unparse(s.value)[:40])
+                    if t not in ret_alias: ret_alias.append(t)
+                    ret_roots.update(R(s.value, A))
+                return None
+            elif isinstance(s, ast.Raise):
+                return None
+            elif isinstance(s, ast.Break):
+                if loops: loops[-1]['breaks'].append(dict(A))
+                return None
+            elif isinstance(s, ast.Continue):
+                if loops: loops[-1]['continues'].append(dict(A))
+                return None
+            elif isinstance(s, (ast.For, ast.AsyncFor, ast.While)):
+                # loop variable bound to elements: not an alias of the container for our purposes (scalars)
+                head = dict(A); ctx = dict(breaks=[], continues=[])
+                for _ in range(8):
+                    ctx['continues'] = []
+                    loops.append(ctx)
+                    out = visit(s.body, dict(head))
+                    loops.pop()
+                    new = join_states([head, out] + ctx['continues'])
+                    if new == head: break
+                    head = new
+                normal = visit(s.orelse, dict(head)) if s.orelse else head
+                A = join_states([normal] + ctx['breaks'])
+            elif isinstance(s, ast.If):
+                A = join_states([visit(s.body, dict(A)), visit(s.orelse, dict(A))])
             elif isinstance(s, (ast.With, ast.AsyncWith)):
-                visit(s.body, False)
-            elif isinstance(s, ast.Try):
-                visit(s.body, False)
-                for h in s.handlers: visit(h.body, False)
-                visit(s.orelse, False); visit(s.finalbody, False)
-    visit(fn.body, True)
+                A = visit(s.body, dict(A))
+            elif isinstance(s, ast.Try) or type(s).__name__ == 'TryStar':
+                # an exception may leave the body after any of its statements
+                seen = [dict(A)]; cur = dict(A)
+                for st in s.body:
+                    cur = visit([st], cur)
+                    if cur is None: break
+                    seen.append(dict(cur))
+                if cur is not None and s.orelse: cur = visit(s.orelse, cur)
+                hentry = join_states(seen)
+                exits = [cur] + [visit(h.body, dict(hentry)) for h in s.handlers]
+                A = join_states(exits)
+                if s.finalbody:
+                    fin = visit(s.finalbody, join_states([A, hentry]))
+                    A = None if A is None else fin
+        return A
+    visit(fn.body, A0)
+    if want_ret:
+        return params, muts, ret_alias, mutated, ret_roots
     return params, muts, ret_alias, mutated
 
+def site_names(rel, name):
+    """the dotted names under which a module-level function may be written at a call site"""
+    parts = os.path.splitext(rel)[0].split('/')
+    if parts[-1] == '__init__': parts = parts[:-1]
+    dotted = '.'.join(parts)
+    out = ['%s.%s' % (dotted, name), 'dadi.%s.%s' % (dotted, name)]
+    if len(parts) > 1:
+        out += ['%s.%s' % (parts[-1], name), 'dadi.%s.%s' % (parts[-1], name)]     # `from . import DemesUtil`; names re-exported by the package
+    return out
+
 def module_summaries(trees):
-    """{call-site name: (positional parameters, parameters possibly modified)} for every function of the audited modules, to a
-    fixpoint: bare name and `Module.name` / `dadi.Module.name` for module-level functions, `self.name` for methods of Spectrum"""
-    summ = {}
-    for _ in range(6):
-        new = {}
+    """per module {call-site name: (positional parameters, parameters possibly modified, parameters the return value may alias)}
+    for every function of the audited modules, to a fixpoint: dotted names (`Module.name`, `dadi.Module.name`, `dadi.Demes.Demes.name`,
+    `Demes.name` …) are global; a bare name means the function of the SAME module (else the first module that defines it);
+    `self.name` for methods of Spectrum, `Spectrum.name` / `dadi.Spectrum.name` for its static methods"""
+    glob = {}; bare = {rel: {} for rel, _ in trees}; first = {}
+    def view(rel):
+        v = dict(first); v.update(glob); v.update(bare[rel]); return v
+    for _ in range(12):
+        nglob = {}; nbare = {rel: {} for rel, _ in trees}; nfirst = {}
         for rel, tree in trees:
-            mod = os.path.splitext(os.path.basename(rel))[0]
+            sv = view(rel)
             for n in tree.body:
                 if isinstance(n, ast.FunctionDef):
-                    _, _, _, mutated = analyse(n, summ)
+                    _, _, _, mutated, rets = analyse(n, sv, want_ret=True)
                     own = set(param_names(n)[1])
-                    val = (param_names(n)[0], mutated & own)
-                    for key in (n.name, '%s.%s' % (mod, n.name), 'dadi.%s.%s' % (mod, n.name)):
-                        if key == n.name and key in new: continue          # bare names: first module wins (same-module calls dominate)
-                        new[key] = val
+                    val = (param_names(n)[0], mutated & own, rets & own)
+                    nbare[rel][n.name] = val
+                    nfirst.setdefault(n.name, val)
+                    for key in site_names(rel, n.name): nglob.setdefault(key, val)
                 elif isinstance(n, ast.ClassDef) and n.name == 'Spectrum':
                     for m in n.body:
                         if isinstance(m, ast.FunctionDef):
-                            _, _, _, mutated = analyse(m, summ)
-                            new['self.' + m.name] = (param_names(m)[0], mutated & set(param_names(m)[1]))
-        if new == summ: break
-        summ = new
-    return summ
+                            _, _, _, mutated, rets = analyse(m, sv, want_ret=True)
+                            own = set(param_names(m)[1])
+                            val = (param_names(m)[0], mutated & own, rets & own)
+                            nglob['self.' + m.name] = val
+                            if any(T.callee_name(d) == 'staticmethod' for d in m.decorator_list):
+                                for key in ('Spectrum.' + m.name, 'dadi.Spectrum.' + m.name, 'Spectrum_mod.Spectrum.' + m.name):
+                                    nglob[key] = val
+        if (nglob, nbare, nfirst) == (glob, bare, first): break
+        glob, bare, first = nglob, nbare, nfirst
+    return {rel: view(rel) for rel, _ in trees}
 
 def cache_tables(path, rel, tree, src):
     """memo tables: module-level `NAME = {}` + a function storing `NAME[key] = value`.
@@ -419,6 +559,11 @@ def audited(rel, tree):
         out += [(n.name, n) for n in tree.body if isinstance(n, ast.FunctionDef) and n.name in want]
     elif rel == 'PhiManip.py':
         out += [(n.name, n) for n in tree.body if isinstance(n, ast.FunctionDef) and (n.name.startswith('phi_') or n.name in ('remove_pop', 'filter_pops', 'reorder_pops'))]
+    elif rel in ('Demes/Demes.py', 'Demes/DemesUtil.py', 'Demes/__init__.py', 'LowPass/LowPass.py'):
+        # every module-level function (the demes front end, the graph utilities, the exporter, the low-pass helpers); inner functions
+        # are added by generate().  Qualified by the module where two audited modules could define the same name.
+        pre = {'Demes/Demes.py': 'Demes.', 'Demes/DemesUtil.py': 'DemesUtil.', 'Demes/__init__.py': 'Demes.', 'LowPass/LowPass.py': 'LowPass.'}[rel]
+        out += [(pre + n.name, n) for n in tree.body if isinstance(n, ast.FunctionDef)]
     return out
 
 # ---------------------------------------------------------------- iteration order of sets (hash-seed dependence)
@@ -488,12 +633,12 @@ def generate():
             raise T.TranslateError('module %s not found' % rel)
         src = open(path).read()
         trees.append((rel, path, src, ast.parse(src)))
-    summ = module_summaries([(rel, tree) for rel, _, _, tree in trees])
+    summs = module_summaries([(rel, tree) for rel, _, _, tree in trees])
     for rel, path, src, tree in trees:
         caches += cache_tables(path, rel, tree, src)
         for qn, fn in audited(rel, tree):
             nested = []
-            params, muts, ra, _ = analyse(fn, summ, qual=qn, nested_out=nested)
+            params, muts, ra, _ = analyse(fn, summs[rel], qual=qn, nested_out=nested)
             effects.append(dict(module=rel, fn=qn, mut=bool(muts), ret=bool(ra), ev=(muts + ra)[:4]))
             # inner functions (closures handed to the finite-difference / optimiser machinery): one row each
             for (q, npar, nm, nr) in nested:
